@@ -45,7 +45,12 @@ def install (g : GState) (resps : List BaseResp) : GState :=
 /-- what a correct base allocator guarantees for the blocks it hands out during one step, whatever
     was asked: each granted block is aligned for the chunk header, not null, lies in the lower half of
     the address space (`RespGeomOK`), and overlaps neither a chunk the arena currently owns nor another
-    block granted in the same step (`RespsFresh`) -/
+    block granted in the same step (`RespsFresh`).
+    That a granted block is at least as large as REQUESTED is not part of `EnvOK`: the request size is
+    computed by the model during the step, and the model faults (`Fault.rs`, the debug assertion in
+    `NonDummyChunk::new`) on a block that is too small, so preservation of the invariant does not need it;
+    it is the extra hypothesis `Answered` (built from `BaseOK` / `HeadOK` of Arena/Inv.lean) of the
+    no-fault theorem (Lemmas/HistNoFault.lean). -/
 def EnvOK (cfg : Cfg) (g : GState) (resps : List BaseResp) : Prop :=
   RespsOK cfg (install g resps).s ∧ RespsFresh (install g resps).s
 
